@@ -8,7 +8,10 @@ EXTRA = {"C01a": ["C06"], "C01b": ["C05"], "C02a": ["C04"], "C02b": ["C04"], "C0
          "C07a": ["C05"], "C07b": ["C04"], "C08a": ["C10"], "C08b": ["C05"], "C09a": ["C10"], "C09b": ["C10"], "C10b": ["C08"], "C17a": ["C14"], "C17b": ["C14"],
          # round 2 (ids ending in c / d)
          "C01d": ["C05"], "C02c": ["C04"], "C02d": ["C04"], "C03d": ["C05"], "C04d": ["C05"], "C07d": ["C05"], "C09c": ["C10"], "C09d": ["C10"], "C11d": ["C12"],
-         "C12d": ["C13"], "C13c": ["C18"], "C13d": ["C12"], "C17c": ["C18"]}
+         "C12d": ["C13"], "C13c": ["C18"], "C13d": ["C12"], "C17c": ["C18"],
+         # round 3 (ids ending in e / f)
+         "C01e": ["C08"], "C01f": ["C05"], "C02e": ["C08"], "C02f": ["C04"], "C03e": ["C05"], "C03f": ["C10"], "C04f": ["C05", "C08"], "C07e": ["C10"], "C07f": ["C03"],
+         "C11f": ["C18"], "C12e": ["C13", "C18"], "C13e": ["C12"], "C15e": ["C14"]}
 args = sys.argv[1:]; tier = "quick"
 if "--tier" in args: i = args.index("--tier"); tier = args[i + 1]; del args[i:i + 2]
 ids = args or sorted(os.path.basename(d) for d in glob.glob(ROOT + "/seeded/C*"))
